@@ -20,6 +20,10 @@ def pfxToks (n : OpNode) : List Tok :=
   if has n.op.ty T.parenCast then [.op .parenthesesStart, .vtype n.castName n.castPtrs, .op .parenthesesEnd]
   else [.op (lexedOp n.op)]
 
+/-- operators that may sit in a prefix frame: the prefix operator tokens and the cast operator that
+    `transformLastPair` builds from `( type )` -/
+def preOk (o : Op) : Bool := prefixOk o || o == .parenCast
+
 inductive Frame where
   | pre (n : OpNode)
   | bin (n : OpNode) (l : Expr)
@@ -57,7 +61,7 @@ def isQuest : Frame → Bool
 
 /-- the kind of operator a frame may hold -/
 def ok : Frame → Prop
-  | pre n => prefixOk n.op = true
+  | pre n => preOk n.op = true
   | bin n _ => has n.op.ty T.binary = true
   | post n _ => has n.op.ty T.rightUnary = true
   | quest n _ => (n.op.ty == T.questionMark) = true
@@ -104,7 +108,7 @@ theorem ty_facts_ru : ∀ o : Op, has o.ty T.rightUnary = true →
     has o.ty T.binary = false ∧ has o.ty T.leftUnary = false ∧ has o.ty T.pairStart = false ∧ o.prec = 2 := by
   intro o; revert o; exact forall_op (by decide +kernel)
 
-theorem ty_facts_prefixOk : ∀ o : Op, prefixOk o = true →
+theorem ty_facts_prefixOk : ∀ o : Op, preOk o = true →
     has o.ty T.leftUnary = true ∧ has o.ty T.colon = false ∧ has o.ty T.questionMark = false ∧
     (has o.ty T.special = true → has o.ty T.parenCast = false → has o.ty T.sizeof_ = false →
       (has o.ty T.new_ = false ∧ has o.ty T.delete_ = false ∧ has o.ty T.throw_ = true)) ∧
@@ -135,7 +139,7 @@ theorem apply_post (n : OpNode) (prev : Option Tok) (e : Expr) (rest : List Expr
   obtain ⟨h1, h2, _⟩ := ty_facts_ru n.op h
   simp [applyOperator, h, h1, h2]
 
-theorem applyLeftUnary_pfx (n : OpNode) (v : Expr) (h : prefixOk n.op = true) :
+theorem applyLeftUnary_pfx (n : OpNode) (v : Expr) (h : preOk n.op = true) :
     applyLeftUnary n v = .ok (pfxNode n v) := by
   obtain ⟨_, _, _, h4, h5, h6⟩ := ty_facts_prefixOk n.op h
   unfold applyLeftUnary pfxNode
@@ -149,7 +153,7 @@ theorem applyLeftUnary_pfx (n : OpNode) (v : Expr) (h : prefixOk n.op = true) :
   · simp [hs]
 
 theorem apply_pre (n : OpNode) (prev : Option Tok) (e : Expr) (rest : List Expr)
-    (h : prefixOk n.op = true) :
+    (h : preOk n.op = true) :
     applyOperator n prev (e :: rest) = .ok (pfxNode n e :: rest) := by
   obtain ⟨h1, h2, _⟩ := ty_facts_prefixOk n.op h
   obtain ⟨hb, _⟩ := ty_facts_lu n.op h1
@@ -172,7 +176,7 @@ theorem apply_colon (n : OpNode) (prev : Option Tok) (f t c : Expr) (q : Op) (re
 theorem lexedOp_q : lexedOp .questionMark = .questionMark := by decide
 theorem lexedOp_c : lexedOp .colon = .colon := by decide
 
-theorem printToks_pfx (n : OpNode) (e : Expr) (h : prefixOk n.op = true) :
+theorem printToks_pfx (n : OpNode) (e : Expr) (h : preOk n.op = true) :
     printToks (pfxNode n e) = pfxToks n ++ printToks e := by
   obtain ⟨_, _, _, h4, h5, h6⟩ := ty_facts_prefixOk n.op h
   unfold pfxNode pfxToks
